@@ -211,3 +211,41 @@ UNITS.append(Unit(
     cases=[Case('conversions are not memoised by argument equality (1, True and 1.0 are equal and hash alike in Python but are different Excel values)',
                 lambda: True, lambda out: out.kind == 'ret' and out.value == [])],
     call=lambda it, fn: scan_memo(), native_call=lambda fn: scan_memo()))
+
+
+# ---- every registered name, every spelling --------------------------------------------------------------------------------------------
+USER_ADDED = ['XOR', 'XLOOKUP', 'NUMBERVALUE', 'FILTER', 'LET', 'N', 'T', 'LN2', 'FLOOR.MATH', 'NORM.S.DIST']
+
+
+def scan_names(*a):
+    """FunctionNode.eval, run on a call of every registered function name (and some names a user might add) in every
+    spelling - upper / lower / capitalised, with and without an `_xlfn.` prefix in either case: the callable filed under
+    the upper-case name is the one that is called"""
+    import xlcalculator                                     # noqa
+    from xlcalculator.xlfunctions import xl, engineering    # noqa
+    from xlcalculator import ast_nodes, tokenizer
+    names = sorted(set(xl.FUNCTIONS) | set(USER_ADDED))
+    ns = {}
+    for n in names:
+        ns[n] = (lambda n_: lambda: ('called', n_))(n)
+    ctx = type('Ctx', (), {'namespace': ns, 'ref': 'S!A1', 'sheet': 'S'})()
+    bad = []
+    for n in names:
+        for spell in (n, n.lower(), n.capitalize()):
+            for prefix in ('', '_xlfn.', '_XLFN.', '_Xlfn.'):
+                node = ast_nodes.FunctionNode(tokenizer.f_token(prefix + spell, 'function', ''))
+                node.args = []
+                try:
+                    got = node.eval(ctx)
+                except Exception as ex:      # noqa
+                    got = f'raise {type(ex).__name__}: {ex}'
+                if got != ('called', n):
+                    bad.append(f'{prefix}{spell} -> {got}')
+    return bad[:10]
+
+
+UNITS.append(Unit(
+    id='C08/ast_nodes.FunctionNode.eval/every_registered_name', target='xlcalculator.ast_nodes:FunctionNode.eval', inputs=[],
+    cases=[Case('every registered (or user-added) function is reached under its name in any letter case, with or without an _xlfn. prefix (finite scan of the real registry)',
+                lambda: True, lambda out: out.kind == 'ret' and out.value == [])],
+    call=lambda it, fn: scan_names(), native_call=lambda fn: scan_names()))
